@@ -481,7 +481,8 @@ func (a *index) buildGlobalCollections(
 				CreationTime:       svc.CreationTime,
 				DNSConnectStrategy: svc.DNSConnectStrategy,
 			}
-			newSvcInfo.Service.SubjectAltNames = sans.UnsortedList()
+			// the SANs need a stable order: the service is compared and sent as it is
+			newSvcInfo.Service.SubjectAltNames = sets.SortedList(sans)
 			return precomputeServicePtr(newSvcInfo)
 		},
 		opts.WithName("SplitHorizonServices")...)
@@ -670,7 +671,8 @@ func mergeServiceInfosWithCluster(
 			}
 			return na
 		})
-		base.Object.Service.SubjectAltNames = sans.UnsortedList()
+		// like the VIPs, the SANs need a stable order
+		base.Object.Service.SubjectAltNames = sets.SortedList(sans)
 
 		// Remember, we have to re-precompute the serviceinfo since we changed it
 		return &krt.ObjectWithCluster[model.ServiceInfo]{
